@@ -5014,6 +5014,9 @@ size_t ZSTD_loadCEntropy(ZSTD_compressedBlockState_t* bs, void* workspace,
     const BYTE* const dictEnd = dictPtr + dictSize;
     dictPtr += 8;
     bs->entropy.huf.repeatMode = HUF_repeat_check;
+    /* the tables of a dictionary may describe fewer symbols than the format allows :
+     * give the remaining entries a defined (zero) value, they are read by ZSTD_rescaleFreqs() */
+    ZSTD_memset(&bs->entropy.fse, 0, sizeof(bs->entropy.fse));
 
     {   unsigned maxSymbolValue = 255;
         unsigned hasZeroWeights = 1;
